@@ -53,6 +53,17 @@ extern char *simArenaBrk(void);
 extern unsigned long simForcedGcCount(void);
 extern unsigned long simSbrkRefusedCount(void);
 extern void simLogOff(void);
+extern unsigned long simArenaCap(void);
+
+/* stoResize and stoCAlloc use the result of their inner stoAlloc without looking at it;
+ * with a handler that returns null that is a null dereference.  What a handler may return
+ * is not part of the property, so neither is issued when the OS might refuse memory: a
+ * refusal is pending, or the arena is too full to be sure the request fits. */
+static int mayBeRefused(unsigned long bytes)
+{
+	unsigned long used = (unsigned long) (simArenaBrk() - simArenaBase());
+	return simSbrkRefusePending() || used + 2 * bytes + (24UL << 20) > simArenaCap();
+}
 
 #define MAXBLK   (1 << 17)
 #define XM       0x5A5A5A5A5A5A5A5AUL
@@ -334,7 +345,7 @@ static long opAlloc(unsigned long bytes, unsigned code, int kind)
 	if (nB >= MAXBLK - 1) return -1;
 	if (bytes == 0) bytes = 1;
 	if (liveBytes + bytes > LIVE_CAP) return -1;	/* keep the cost of collections and checks bounded */
-	if (useCAlloc && simSbrkRefusePending()) useCAlloc = 0;	/* stoCAlloc clears its result unchecked */
+	if (useCAlloc && mayBeRefused(bytes)) useCAlloc = 0;	/* stoCAlloc clears its result unchecked */
 	p = (char *) (useCAlloc ? stoCAlloc(code, bytes) : stoAlloc(code, bytes));
 	noteNatural();
 	if (p && useCAlloc) {
@@ -397,7 +408,7 @@ static void opResize(long ix, unsigned long bytes)
 	 * it; with a handler that returns null that is a null dereference.  What a
 	 * handler may return is not part of the property, so no resize is issued
 	 * while a refusal is pending. */
-	if (simSbrkRefusePending()) return;
+	if (mayBeRefused(bytes)) return;
 	if (b->child >= 0 && bytes < 8) {
 		long c = unlinkChild(ix);
 		if (c >= 0 && B[c].livePos >= 0 && B[c].kind == K_HEAP) dropBlock(c);
